@@ -29,13 +29,29 @@ for f in ("patch.diff", "demo.py", "notes.md"):
 cur = tempfile.mkdtemp(prefix="primaite-seed-", dir="/var/tmp")
 os.rmdir(cur)
 sh(["git", "-C", "/repo", "worktree", "add", "-q", "--detach", cur, "HEAD"])
+def demo_on(cur):
+    """The author's demo with its hard-coded worktree path redirected to ``cur``."""
+    src = open(os.path.join(sd, "demo.py")).read()
+    import re
+    m = re.search(r"/tmp/seed-C\d+", src)
+    if m:
+        src = src.replace(m.group(0), cur)
+    fp = os.path.join(cur, "_demo_redirected.py")
+    open(fp, "w").write(src)
+    rc, _ = sh(["/venv/bin/python", "-W", "ignore", fp], cwd=cur)
+    os.unlink(fp)
+    return rc
+
+
 try:
+    head_demo_without = demo_on(cur)
     rc, out = sh(["git", "apply", os.path.join(sd, "patch.diff")], cwd=cur)
     if rc:
         rc, out = sh(["git", "apply", "-3", os.path.join(sd, "patch.diff")], cwd=cur)
     if rc:
         print("%s: PATCH DOES NOT APPLY TO CURRENT HEAD: %s" % (a.name, out[:300]))
         sys.exit(3)
+    head_demo_with = demo_on(cur)
     results = {}
     for cid in [a.prop] + [x for x in a.also.split(",") if x]:
         env = dict(os.environ, VERIF_REPO=cur)
@@ -68,7 +84,10 @@ for fn, key in (("demo.txt", "demo"), ("baseline.txt", "pinned_suite_with_change
     fp = os.path.join(dst, fn)
     if os.path.exists(fp):
         conf[key] = open(fp).read().strip().split("\n")[0]
+conf["demo_on_current_head"] = "demo_exit_without_change=%d demo_exit_with_change=%d" % (head_demo_without, head_demo_with)
 meta["confirmed"] = conf or meta.get("confirmed", {})
+if head_demo_with == 0:
+    meta["neutralised"] = "on the current /repo HEAD the demonstration passes WITH the change: a later fix: commit removed what the seeded defect relied on"
 json.dump(meta, open(meta_p, "w"), indent=1)
 print("%s: confirmed=%s caught_by=%s" % (a.name, conf, meta["caught_by"]))
 sys.exit(0 if meta["caught_by"] else 1)
